@@ -425,7 +425,8 @@ class HistGen:
         return max(0, min(l, self.max_payload * 3))
 
     def op_create(self):
-        tok = self.rng.choice(self.names)
+        missing = [n for n in self.names if n not in self.ref.q]
+        tok = self.rng.choice(missing) if missing and self.rng.random() < 0.8 else self.rng.choice(self.names)
         res = self.ref.create(tok)
         self.cmds.append("create %s" % tok)
         if res[0] == "ok":
@@ -435,7 +436,8 @@ class HistGen:
             self.stats["rejected"] += 1
 
     def op_delete(self):
-        tok = self.rng.choice(self.names)
+        existing = [n for n in self.names if n in self.ref.q]
+        tok = self.rng.choice(existing) if existing and self.rng.random() < 0.85 else self.rng.choice(self.names)
         res = self.ref.delete(tok)
         self.cmds.append("delete %s" % tok)
         if res[0] == "ok":
@@ -452,7 +454,7 @@ class HistGen:
         else:
             tok = rng.choice(self.names)
         q = self.ref.q.get(tok)
-        nrec = rng.choice([1, 1, 1, 1, 2, 3, 5, 0])
+        nrec = rng.choice([1, 1, 1, 1, 1, 1, 1, 2, 2, 3, 3, 5, 6, 1, 1, 0])
         nxt = q.next if q else 0
         x = rng.random()
         if x < 0.60:
@@ -525,6 +527,8 @@ class HistGen:
         self.op_create()
         for _ in range(nops):
             o = self.rng.choices(ops, ws)[0]
+            if not self.ref.q and self.rng.random() < 0.75:
+                o = "create"
             getattr(self, "op_" + o)()
         return self.cmds
 
